@@ -122,6 +122,12 @@ type Call struct {
 	ptr  *cmap.AtomicValue[int64]
 	ptrs []*cmap.AtomicValue[int64]
 	skip bool
+	// ownership observations (slice programs): Append: spare capacity of the argument slice, the
+	// caller's buffer found in order before / after the call; the epilogue call: buffer of
+	// goroutine 0 found in order at the very end
+	Spare     int
+	Pre, Post bool
+	Epilogue  bool
 }
 
 type engine struct {
@@ -167,13 +173,16 @@ func newScratch(tid int, alias *atomic.Bool) *scratch {
 }
 
 // intact: every cell from index lo on still holds its sentinel
-func (sc *scratch) intact(lo int) {
+func (sc *scratch) intact(lo int) bool {
+	ok := true
 	for i := lo; i < len(sc.buf); i++ {
 		if sc.buf[i] != sc.base-int64(i) {
+			ok = false
 			sc.alias.Store(true)
 			sc.buf[i] = sc.base - int64(i)
 		}
 	}
+	return ok
 }
 
 // arg copies items into the buffer and returns the slice to spread into the call
@@ -193,14 +202,16 @@ func (sc *scratch) arg(items []int64, opIndex int) []int64 {
 }
 
 // reuse: after the call the arguments must be unchanged; then the caller reuses its buffer
-func (sc *scratch) reuse(items []int64) {
+func (sc *scratch) reuse(items []int64) bool {
+	ok := true
 	for i, v := range items {
 		if sc.buf[i] != v {
+			ok = false
 			sc.alias.Store(true)
 		}
 		sc.buf[i] = sc.base - int64(i)
 	}
-	sc.intact(len(items))
+	return sc.intact(len(items)) && ok
 }
 
 // container instances for one execution
@@ -340,13 +351,14 @@ func runThread(ctr *atomic.Int64, obj *objects, tid int, ops []Op, recs []Call, 
 				r.RN = v
 			}
 		case oAppend:
-			sc.intact(0)
+			r.Pre = sc.intact(0)
 			arg := sc.arg(o.Items, i)
+			r.Spare = cap(arg) - len(arg)
 			r.Inv = ctr.Add(1)
 			n := obj.s.Append(arg...)
 			r.Res = ctr.Add(1)
 			r.RN = int64(n)
-			sc.reuse(o.Items)
+			r.Post = sc.reuse(o.Items)
 		case oSLen:
 			r.Inv = ctr.Add(1)
 			n := obj.s.Len()
@@ -444,12 +456,17 @@ func epilogue(rd *round, p *Program) {
 	}
 	rec := make([]Call, 1)
 	runThread(&rd.ctr, rd.obj, 0, []Op{o}, rec, false, rd.scr[0])
-	rd.recs[0] = append(rd.recs[0], rec[0])
-	for _, sc := range rd.scr {
+	rec[0].Epilogue = true
+	rec[0].Post = true
+	for t, sc := range rd.scr {
 		if sc != nil {
-			sc.intact(0)
+			ok := sc.intact(0)
+			if t == 0 {
+				rec[0].Post = ok
+			}
 		}
 	}
+	rd.recs[0] = append(rd.recs[0], rec[0])
 }
 
 func runBatch(p *Program, reps int, each func(h []Call, alias bool)) bool {
@@ -604,6 +621,37 @@ func coqHistory(kind string, h []Call) string {
 	}
 	ctor := map[string]string{"map": "CMap", "atomic": "CAtomic", "slice": "CSlice"}[kind]
 	return ctor + " [" + strings.Join(parts, "; ") + "]"
+}
+
+// coqOwnCase: a single goroutine's slice program as a case of the memory-level model
+// (coq/C14/SliceMemModel.v): the operations with the spare capacity actually used, and what was
+// observed (results, the caller's buffer checks, the final look at the buffer).
+func coqOwnCase(h []Call) (string, bool) {
+	var prog, obs []string
+	for i := range h {
+		c := &h[i]
+		switch c.Code {
+		case oAppend:
+			if len(c.Items) > 8 {
+				return "", false // the harness enlarges its buffer for long lists; the model's is fixed
+			}
+			prog = append(prog, fmt.Sprintf("OwAppend %s %d", zs(c.Items), c.Spare))
+			obs = append(obs, fmt.Sprintf("MoApp %s %s %s", z(c.RN), hx.CoqBool(c.Pre), hx.CoqBool(c.Post)))
+		case oSLen:
+			prog = append(prog, "OwLen")
+			obs = append(obs, "MoLen "+z(c.RN))
+		case oSlice:
+			prog = append(prog, "OwSlice")
+			obs = append(obs, "MoSlice "+zs(c.RList))
+			if c.Epilogue {
+				prog = append(prog, "OwCheck")
+				obs = append(obs, "MoCheck "+hx.CoqBool(c.Post))
+			}
+		default:
+			return "", false
+		}
+	}
+	return "CSliceMem [" + strings.Join(prog, "; ") + "] [" + strings.Join(obs, "; ") + "]", true
 }
 
 // human-readable history for replay files
